@@ -1,3 +1,4 @@
 import PepperModel.Codes
 import PepperModel.Generated.Tables
 import PepperModel.Closure
+import PepperModel.Notation
